@@ -263,7 +263,7 @@ def build_extracted():
 def _ocaml_chunk(args):
     exe, text, mode = args
     p = subprocess.run(["bash", "-c", "ulimit -s unlimited 2>/dev/null; exec %s %s" % (exe, mode)], input=text,
-                       stdout=subprocess.PIPE, stderr=subprocess.PIPE, text=True, timeout=3000)
+                       stdout=subprocess.PIPE, stderr=subprocess.PIPE, text=True, timeout=900)
     outs = [l for l in p.stdout.splitlines() if not l.startswith("WARNING conda")]
     return p.returncode, outs, p.stderr[-2000:]
 
